@@ -95,7 +95,9 @@ func seedMsgs() (msgs [][]byte, justs [][]byte, partials [][]byte, chains [][]by
 	sd := gpbft.SupplementalData{PowerTable: vgen.DetCid("fsd")}
 	j := &gpbft.Justification{Vote: gpbft.Payload{Instance: 7, Round: 1, Phase: gpbft.PREPARE_PHASE, SupplementalData: sd, Value: ch}, Signers: vgen.Bitfield([]int{0, 2, 5}), Signature: vgen.DetBytes(96, "js")}
 	m := &gpbft.GMessage{Sender: 9, Vote: gpbft.Payload{Instance: 7, Round: 2, Phase: gpbft.CONVERGE_PHASE, SupplementalData: sd, Value: ch}, Signature: vgen.DetBytes(96, "ms"), Ticket: vgen.DetBytes(96, "tk"), Justification: j}
-	enc := func(x interface{ MarshalCBOR(w interface{ Write([]byte) (int, error) }) error }) []byte { return nil }
+	enc := func(x interface {
+		MarshalCBOR(w interface{ Write([]byte) (int, error) }) error
+	}) []byte { return nil }
 	_ = enc
 	var b bytes.Buffer
 	_ = m.MarshalCBOR(&b)
